@@ -735,6 +735,7 @@ impl Renderable for Template {
         rc: &mut RenderContext<'reg, 'rc>,
         out: &mut dyn Output,
     ) -> Result<(), RenderError> {
+        let template_name_before = rc.get_current_template_name();
         rc.set_current_template_name(self.name.as_ref());
         let iter = self.elements.iter();
 
@@ -754,6 +755,12 @@ impl Renderable for Template {
 
                 e
             })?;
+        }
+
+        // an unnamed inner template (block body, else branch) hands back to
+        // the template it is part of
+        if self.name.is_none() {
+            rc.set_current_template_name(template_name_before);
         }
 
         Ok(())
